@@ -17,7 +17,7 @@ static int VO[3];
 static int NK, FAULTS, PROBES = 1;
 static cstl_map_t M;
 
-static int kcmp(const void *a, const void *b, void *p) { e_check_priv(p); return ((const struct kobj *)a)->value - ((const struct kobj *)b)->value; }
+static int kcmp(const void *a, const void *b, void *p) { e_check_priv(p); return e_cmp3(((const struct kobj *)a)->value, ((const struct kobj *)b)->value); }
 static int ko_id(const void *k) { const struct kobj *o = k; if (!k) return 0; if (o < &KO[0][0] || o > &KO[MAXK][2]) return -1; return (int)((o - &KO[0][0]) % 3); }
 static int k_of(const void *k) { const struct kobj *o = k; if (!k) return 0; if (o < &KO[0][0] || o > &KO[MAXK][2]) return -1; return (int)((o - &KO[0][0]) / 3); }
 static int vo_id(const void *v) { const int *o = v; if (!v) return 0; if (o < &VO[0] || o > &VO[2]) return -1; return (int)(o - &VO[0]); }
